@@ -212,6 +212,34 @@ fn run_one(id: J, src: &str, syn: &str, opts_text: &str) -> J {
     rec.push(("syntax".into(), J::s(&syn)));
     rec.push(("options_text".into(), J::s(&opts_text)));
 
+    // the configuration text as ordered JSON (duplicates kept), for the model of serde's derive
+    let oj_text = opts_text.clone();
+    let options_json = catch_unwind(move || oj::parse(&oj_text)).unwrap_or(J::Null);
+    let mut pats: Vec<String> = vec![];
+    fn strings_under(j: &J, key: bool, out: &mut Vec<String>) {
+        match j {
+            J::Str(s) if key => {
+                if !out.contains(s) {
+                    out.push(s.clone())
+                }
+            }
+            J::Arr(a) => a.iter().for_each(|x| strings_under(x, key, out)),
+            J::Obj(m) => m.iter().for_each(|(k, v)| strings_under(v, k == "customElementPatterns", out)),
+            _ => {}
+        }
+    }
+    // in the sequence form the patterns are the third element
+    if let J::Arr(a) = &options_json {
+        if let Some(x) = a.get(2) {
+            strings_under(x, true, &mut pats);
+        }
+    }
+    strings_under(&options_json, false, &mut pats);
+    rec.push(("options_json".into(), options_json));
+    rec.push((
+        "regex_valid".into(),
+        J::Arr(pats.iter().map(|p| J::Arr(vec![J::s(p), J::Bool(swc_vue_jsx_visitor::Regex::new(p).is_ok())])).collect()),
+    ));
     // options exactly as plugin/src/lib.rs reads them
     let opts: Result<Options, _> = serde_json::from_str(&opts_text);
     let opts = match opts {
